@@ -377,4 +377,76 @@ theorem crack_correct {c1 c2 q k r1 s1 id1 r2 s2 id2 : ℤ} (hk : 0 < k ∧ k < 
   unfold crack
   simp [hne, hd, hri, hk', hq']
 
+/-! ## `Sig.assert_valid`'s x-coordinate screen never changes the verdict -/
+
+theorem congruent_of (isX : ℤ → Bool) (hn : 0 < o.n) : ∀ (fuel : ℕ) (x : ℤ) (j : ℕ), j < fuel →
+    x + j * o.n < o.p → isX (x + j * o.n) = true → congruent o isX fuel x = true
+  | 0, _, _, h, _, _ => by omega
+  | fuel + 1, x, j, hj, hp, hx => by
+    unfold congruent
+    have hjn : 0 ≤ (j : ℤ) * o.n := by positivity
+    have hxp : x < o.p := by omega
+    rw [if_pos hxp]
+    by_cases hxx : isX x = true
+    · rw [if_pos hxx]
+    · rw [if_neg hxx]
+      cases j with
+      | zero => simp at hx; exact absurd hx hxx
+      | succ j' =>
+        apply congruent_of isX hn fuel (x + o.n) j' (by omega)
+        · push_cast at hp ⊢; linarith
+        · push_cast at hx ⊢
+          rw [show x + o.n + j' * o.n = x + (j' + 1) * o.n by ring]; exact hx
+
+/-- `dsa.verify_` first validates the `Sig` — ranges, and "r is congruent to an x-coordinate" — before the
+    equation.  If the x-coordinate test `isX` accepts every x-coordinate of a non-identity element, the
+    screen is redundant: the boolean the API answers is exactly the SEC 1 predicate `verify`. -/
+theorem verifyFull_eq_verify (isX : ℤ → Bool) (hX : ∀ P, L.abs P ≠ 0 → isX (o.x P) = true)
+    (c : ℤ) (Q : α) (r s : ℤ) : verifyFull o isX c Q r s = verify o c Q r s := by
+  by_cases hv : verify o c Q r s = true
+  · rw [hv]
+    obtain ⟨hr0, hr1, hs0, hs1, w, -, K, -, hK, hx⟩ := (verify_iff_SEC1 L c Q r s).mp hv
+    have hcore : verifyCore o c Q r s false = .ok () := by
+      unfold verify at hv
+      simp only [Bool.and_eq_true] at hv
+      cases hc : verifyCore o c Q r s false with
+      | ok u => cases u; rfl
+      | error e => rw [hc] at hv; simp at hv
+    have hxr := L.x_range K hK
+    have hn := L.n_pos
+    have hcong : congruent o isX (o.p / o.n + 1).toNat r = true := by
+      have hj0 : 0 ≤ o.x K / o.n := Int.ediv_nonneg hxr.1 (le_of_lt hn)
+      have hdecomp : r + ((o.x K / o.n).toNat : ℤ) * o.n = o.x K := by
+        rw [Int.toNat_of_nonneg hj0, ← hx]
+        have := Int.emod_add_mul_ediv (o.x K) o.n
+        linarith
+      apply congruent_of isX hn _ r (o.x K / o.n).toNat
+      · have h1 : o.x K / o.n ≤ o.p / o.n := Int.ediv_le_ediv hn (le_of_lt hxr.2)
+        omega
+      · rw [hdecomp]; exact hxr.2
+      · rw [hdecomp]; exact hX K hK
+    unfold verifyFull sigValid
+    simp [hr0, hr1, hs0, hs1, hcong, hcore]
+  · have hv' : verify o c Q r s = false := by simpa using hv
+    rw [hv']
+    unfold verifyFull
+    cases hsv : sigValid o isX r s with
+    | error e => rfl
+    | ok u =>
+      have hrs : (0 < r ∧ r < o.n) ∧ (0 < s ∧ s < o.n) := by
+        unfold sigValid at hsv
+        split at hsv
+        · cases hsv
+        · rename_i h1
+          split at hsv
+          · cases hsv
+          · split at hsv
+            · cases hsv
+            · rename_i h3
+              exact ⟨not_not.mp h1, not_not.mp h3⟩
+      unfold verify at hv'
+      cases hc : verifyCore o c Q r s false with
+      | ok u => rw [hc] at hv'; simp [hrs.1, hrs.2] at hv'
+      | error e => rfl
+
 end Btc.Ecdsa
